@@ -172,6 +172,15 @@ def import_case(b, root, libs, opt, tag):
         inits = L.init_names(modcxx)
     elif be != "c":
         inits = L.init_names(srcs[0][1])
+        if be == "python-native":
+            # with -do-module there is no interrogate_module pass, and only that pass pastes the
+            # py_panda runtime of the tree into its output; take the runtime from a module file
+            # generated for an unrelated one-class library
+            rt = runtime_unit(b, d)
+            if rt is None:
+                res.update(status="module", sig="could not generate the runtime support unit")
+                return res
+            srcs.append((d, rt))
     else:
         inits = []
     if be != "c":
@@ -217,6 +226,30 @@ def import_case(b, root, libs, opt, tag):
     return res
 
 
+def runtime_unit(b, d):
+    rd = os.path.join(d, "rt")
+    os.makedirs(rd, exist_ok=True)
+    with open(os.path.join(rd, "rt.h"), "w") as f:
+        f.write("class VfRtDummy {\n__published:\n  VfRtDummy() {}\n};\n")
+    r = tools.interrogate(b, ["-oc", "rt_igate.cxx", "-od", "rt.in", "-module", "vfrt", "-library", "vfrt",
+                              "-python-native", "rt.h"], cwd=rd)
+    if r.rc != 0:
+        return None
+    out = os.path.join(rd, "vfrt_module.cxx")
+    r = tools.run([b["interrogate_module"], "-python-native", "-module", "vfrt", "-library", "vfrt",
+                   "-oc", out, "rt.in"], cwd=rd, b=b)
+    if r.rc != 0 or not os.path.exists(out):
+        return None
+    # keep the pasted runtime, drop the module table (it refers to the dummy library)
+    txt = open(out, errors="replace").read()
+    cut = txt.rfind("extern const struct LibraryDef vfrt_moddef;")
+    if cut < 0:
+        return None
+    with open(out, "w") as f:
+        f.write(txt[:cut])
+    return out
+
+
 # ---------------------------------------------------------------- hash collisions
 def collision_library(n):
     out = ["__begin_publish"]
@@ -240,12 +273,15 @@ def find_collisions(b, root, n):
         raise HarnessError("collision library run failed: %s" % r.brief())
     db = D.parse_in(open(os.path.join(d, "big.in"), "rb").read())
     plen = len("_inC") + len(db["library_hash_name"])
-    groups = {}
+    # interfaceMaker.cxx::hash_function_signature: the first remap keeps its 4-character name
+    # (its _hash is extended but the names were already formed), every later remap with the
+    # same 24-bit hash gets 4 (+1) more characters; so the members of a colliding group are
+    # the wrappers whose hash part starts with the same four characters
+    by4 = {}
     for wi, w in db["wrappers"].items():
         h = w["name"][plen:]
-        if len(h) > 4:
-            fn = db["functions"][w["function"]]["name"]
-            groups.setdefault(h[:4], []).append(fn)
+        by4.setdefault(h[:4], []).append(db["functions"][w["function"]]["name"])
+    groups = {k: v for k, v in by4.items() if len(v) > 1}
     shutil.rmtree(d, ignore_errors=True)
     return {k: sorted(v, key=lambda s: int(s.split("_")[1])) for k, v in sorted(groups.items())}, \
         len(db["wrappers"])
@@ -270,6 +306,7 @@ def collision_case(b, root, fns, opt, tag):
     res["names"] = names
     plen = 4 + len(db["library_hash_name"])
     res["collided"] = sum(1 for n in names if len(n) > plen + 4)
+    res["same4"] = len(names) - len(set(n[plen:plen + 4] for n in names))
     for what, lst in (("wrapper names", names), ("unique names", uniq)):
         if len(set(lst)) != len(lst):
             res.update(status="names", sig="colliding hashes give equal %s" % what, detail=lst)
@@ -284,7 +321,11 @@ def collision_case(b, root, fns, opt, tag):
         res.update(status="compile", sig=norm_sig(out), gxx=out[:2000])
         return res
     p = tools.run(["nm", "-C", "--defined-only", obj], cwd=d)
-    defined = [l.split()[-1].split("(")[0] for l in p.out.splitlines() if l.strip()]
+    defined = []
+    for l in p.out.splitlines():
+        m = re.match(r"^[0-9a-f]*\s+([A-Za-z])\s+(.*)$", l)
+        if m and m.group(1) in "TtWw":
+            defined.append(m.group(2).split("(")[0].strip())
     for n in names:
         if defined.count(n) != 1:
             res.update(status="symbols", sig="wrapper defined %d times" % defined.count(n), detail=n)
@@ -306,7 +347,9 @@ IMPORT_QUICK = [
 def headers_for(tier):
     plain = L.GROUPS["plain"]
     nasty = L.GROUPS["nasty"]
-    hs = [("plain", plain), ("nasty", nasty)]
+    # atoms with an open known finding live in a header of their own, so that they cannot
+    # mask (or slow down the isolation of) anything else
+    hs = [("plain", plain), ("nasty", nasty), ("adversarial", L.GROUPS["adversarial"])]
     if tier == "thorough":
         hs.append(("all-reversed", list(reversed(plain + nasty))))
         hs.append(("interleaved", [x for p in itertools.zip_longest(nasty, plain) for x in p if x]))
@@ -397,22 +440,28 @@ def main():
             seen[k] = r
             return j, r
         pmap(iso, iso_jobs)
-        groups = {}      # (atom or header, backend, status, sig) -> [opt]
+        # one root cause shows up under many option sets and, when it does not depend on the
+        # declarations at all, in every atom: group by (back-end, status, normalised first
+        # error) and report the smallest member of each group
+        order = {a.name: i for i, a in enumerate(L.ATOMS)}
+        groups = {}
         for hn, o, res in failures:
             bad = [a for a in res["atoms"] if seen.get((a, o.key)) and
                    seen[(a, o.key)]["status"] not in ("ok", "rejected", "noexit0", "empty")]
             if bad:
                 for a in bad:
                     r = seen[(a, o.key)]
-                    groups.setdefault((a, o.backend, r["status"], r["sig"]), {})[o.key] = (o, [a], r)
+                    groups.setdefault((o.backend, r["status"], r["sig"]), {})[(a, o.key)] = (o, a, [a], r)
             else:
                 # no atom fails alone: an interaction between atoms of this header
-                groups.setdefault(("header:" + hn, o.backend, res["status"], res["sig"]), {})[o.key] = \
-                    (o, hdr_atoms[hn], res)
-        for (what, be, st, sig), members in sorted(groups.items()):
-            mo = sorted(members.values(), key=lambda m: (m[0].deviations(), m[0].key))[0]
-            o, names, r = mo
+                groups.setdefault((o.backend, res["status"], res["sig"]), {})[("header:" + hn, o.key)] = \
+                    (o, "header:" + hn, hdr_atoms[hn], res)
+        for (be, st, sig), members in sorted(groups.items()):
+            o, what, names, r = sorted(members.values(),
+                                       key=lambda m: (m[0].deviations(), m[0].key, order.get(m[1], 999)))[0]
             key = "%s|%s" % (what, o.key)
+            whats = sorted(set(m[1] for m in members.values()), key=lambda w: order.get(w, 999))
+            nopts = len(set(k[1] for k in members))
 
             def confirm(names=names, o=o, st=st):
                 rr = evaluate(b, os.path.join(root, "confirm"), names, o,
@@ -420,11 +469,13 @@ def main():
                 return rr["status"] == st
             ck.note("iso|" + key, nontrivial=True, outcome="%s:%s" % (st, be), family="isolation",
                     sample={"atoms": names, "options": o.argv(), "first_error": sig})
-            ck.fail(key, "%s: %s [%s; %d option sets of back-end -%s show the same error, smallest: %s]"
-                    % (st, sig, what, len(members), be, " ".join(o.argv())),
+            ck.fail(key, "%s: %s [smallest case: atom %s with %s; same error for %d atom(s) %s under %d option "
+                         "set(s) of back-end -%s]"
+                    % (st, sig, what, " ".join(o.argv()), len(whats), ",".join(whats[:6]) + ("..." if len(whats) > 6 else ""),
+                       nopts, be),
                     {"observed": sig, "kind": "lattice", "atoms": names, "opt": o.key,
-                     "status": st, "cmd": r.get("cmd"), "gxx": r.get("gxx", r.get("detail", ""))[:2500],
-                     "same_error_option_sets": sorted(members)[:400],
+                     "status": st, "cmd": r.get("cmd"), "gxx": (r.get("gxx") or r.get("detail") or "")[:2500],
+                     "same_error_cases": sorted("%s|%s" % k for k in members)[:600],
                      "header": L.header_text(L.atoms_for(names, o))},
                     confirm=confirm)
 
@@ -454,7 +505,7 @@ def main():
             return j, collision_case(b, root, perm, o, tag)
         for (h, perm, o), res in pmap(runc, cj):
             key = "collision|%s|%s" % (",".join(perm), o.key)
-            ck.note(key, nontrivial=res.get("collided", 0) >= 2, family="collisions",
+            ck.note(key, nontrivial=res.get("collided", 0) >= 1 and res.get("same4", 0) >= 1, family="collisions",
                     outcome="collision:%s:%s" % (res["status"], o.backend),
                     sample={"functions": perm, "options": o.argv(), "names": res.get("names")})
             if res["status"] not in ("ok",):
@@ -513,7 +564,7 @@ def main():
         rule="one case = (header built from atoms, option set) run through the real interrogate and "
              "g++ (or a colliding-hash library in one declaration order, or a full build+import of a "
              "module); non-trivial = interrogate exited 0 and recorded/defined at least one wrapper "
-             "(collisions: at least two names were actually extended; import: a module was built)",
+             "(collisions: the functions really share their first four hash characters and at least one name was extended; import: a module was built)",
         exhaustive=True,
         bound=("full lattice (%d option sets) x %d headers" if thorough else
                "option sets within 2 deviations of each back-end default (%d) x %d headers")
